@@ -50,9 +50,11 @@ pub struct MuxCase {
     /// sink the history is muxed into by `run_mux_vec`: 0 = an in-memory cursor that takes every
     /// write whole; otherwise a legal sink that accepts at most `sink & 0xff` bytes per write call
     /// (a varying amount up to that when bits 8..11 are non-zero); bits 12..15: the caller has
-    /// already written a free box to the sink, the muxer starts behind it (`lead_bytes`)
+    /// already written a free box to the sink, the muxer starts behind it (`lead_bytes`);
+    /// bits 16..31: number of stale bytes the sink already holds behind the starting position (a
+    /// pre-sized or re-used buffer); the output is then the sink up to the muxer's final position
     #[serde(default)]
-    pub sink: u16,
+    pub sink: u32,
 }
 
 #[derive(Clone, Debug, PartialEq, Eq)]
@@ -254,8 +256,8 @@ thread_local! {
 
 /// bytes the caller writes to the sink before handing it to the muxer (bits 12..15 of `sink`):
 /// one free box, so that the output as a whole is still a file; the muxer starts at a non-zero position
-pub fn lead_bytes(sink: u16) -> Vec<u8> {
-    let payload = match sink >> 12 {
+pub fn lead_bytes(sink: u32) -> Vec<u8> {
+    let payload = match (sink >> 12) & 0xf {
         0 => return Vec::new(),
         1 => 0usize,
         2 => 1,
@@ -271,21 +273,33 @@ pub fn lead_bytes(sink: u16) -> Vec<u8> {
 
 pub fn run_mux_vec(case: &MuxCase) -> (MuxRun<Cursor<Vec<u8>>>, Vec<u8>) {
     let lead = lead_bytes(case.sink);
+    let stale = (case.sink >> 16) as usize;
     let start = || {
-        let mut c = Cursor::new(lead.clone());
+        let mut v = lead.clone();
+        v.extend(std::iter::repeat(0xee).take(stale));
+        let mut c = Cursor::new(v);
         c.set_position(lead.len() as u64);
         c
     };
-    if case.sink & 0xfff == 0 && !lead.is_empty() {
+    // a sink that held stale bytes: the caller's file ends where the muxer stopped
+    let finish = |c: Cursor<Vec<u8>>| {
+        let pos = c.position() as usize;
+        let mut v = c.into_inner();
+        if stale > 0 {
+            v.truncate(pos.max(lead.len()));
+        }
+        v
+    };
+    if case.sink & 0xfff == 0 && (!lead.is_empty() || stale > 0) {
         let mut r = run_mux(case, start());
-        let bytes = r.writer.take().map(|c| c.into_inner()).unwrap_or_default();
+        let bytes = r.writer.take().map(finish).unwrap_or_default();
         return (r, bytes);
     }
     if case.sink != 0 {
         let max = (case.sink & 0xff).max(1) as usize;
         let vary = ((case.sink >> 8) & 0xf) as u64;
         let mut r = run_mux(case, crate::io::ShortStream::new(start(), max, vary, 0));
-        let bytes = r.writer.take().map(|s| s.inner.into_inner()).unwrap_or_default();
+        let bytes = r.writer.take().map(|s| finish(s.inner)).unwrap_or_default();
         return (MuxRun { writer: None, calls: r.calls, model: r.model, all_ok: r.all_ok, panicked: r.panicked, tracks_added: r.tracks_added }, bytes);
     }
     let mut r = run_mux(case, Cursor::new(Vec::new()));
@@ -523,8 +537,12 @@ pub fn valid_track() -> impl Strategy<Value = MTrack> {
 }
 
 /// the sink a history is muxed into (see `MuxCase::sink`): mostly a plain cursor at position 0
-pub fn sink_strategy() -> impl Strategy<Value = u16> {
-    prop_oneof![14 => Just(0u16), 1 => (1u16..=40, 0u16..3).prop_map(|(m, v)| m | (v << 8)), 1 => (1u16..8).prop_map(|l| l << 12), 1 => (1u16..=40, 1u16..8).prop_map(|(m, l)| m | (l << 12))]
+pub fn sink_strategy() -> impl Strategy<Value = u32> {
+    (
+        prop_oneof![14 => Just(0u16), 1 => (1u16..=40, 0u16..3).prop_map(|(m, v)| m | (v << 8)), 1 => (1u16..8).prop_map(|l| l << 12), 1 => (1u16..=40, 1u16..8).prop_map(|(m, l)| m | (l << 12))],
+        prop_oneof![12 => Just(0u32), 1 => 1u32..3000, 1 => Just(60_000u32)],
+    )
+        .prop_map(|(s, stale)| s as u32 | (stale << 16))
 }
 
 /// histories in the documented-valid domain
